@@ -47,6 +47,21 @@ func (s *VerifIpamService) Seed(pod *daemon.PodInfo, containerID string, items [
 	return s.n.resourceDB.Put(pod.Namespace+"/"+pod.Name, daemon.PodResources{PodInfo: pod, Resources: items, NetNs: &ns, ContainerID: &containerID})
 }
 
+// LocalUIDs lists the pod UIDs of the sandbox records currently stored (observation for the trace).
+func (s *VerifIpamService) LocalUIDs() []string {
+	objList, err := s.n.resourceDB.List()
+	if err != nil {
+		return nil
+	}
+	var r []string
+	for _, podRes := range getPodResources(objList) {
+		if podRes.PodInfo != nil && podRes.PodInfo.PodUID != "" {
+			r = append(r, podRes.PodInfo.PodUID)
+		}
+	}
+	return r
+}
+
 // CleanRuntimeNode runs the real cleanRuntimeNode step of the daemon's garbage collector with the pod UIDs of the
 // records currently stored, collected the way gcPods collects them before it calls that step.
 func (s *VerifIpamService) CleanRuntimeNode(ctx context.Context) error {
